@@ -26,6 +26,7 @@ RULE = (
     "dumps compared. Cache vs IR: after every recorded operation of the batch run, adjacent_blocks of every block "
     "against the blocks sorted by (interval address, offset), functions_by_block against functionBlocks, the three "
     "return-edge queries against a scan of ir.cfg, every referent against the module's blocks/proxies"
+    "; chains of adjacent whole-block deletions whose first block carries several labels; a committed witness of a patch that switches sections"
 )
 ASSUMPTIONS = [
     "the one-at-a-time run applies the requests in apply()'s own order (block address, offset, insertions first, registration order); a request's original (block, offset) is translated to the block that now holds that byte (for an insertion at the end of a block: the block that now ends there); request sets in which a block is wholly deleted and also receives other requests, and sets whose ranges no longer lie in one block after earlier requests, are not compared",
